@@ -105,6 +105,7 @@ OpOK(T, op) ==
                            /\ op.d1 # op.k /\ op.d2 # op.k
     [] op.op \in {"move", "moveupd"} -> Has(T, "agents", op.k) /\ ~Has(T, "pool", op.k)
     [] op.op = "moveback" -> Has(T, "pool", op.k) /\ ~Has(T, "agents", op.k)
+    [] op.op = "movegen" -> Has(T, "agents", op.k) /\ ~Has(T, "pool", op.k)
     [] op.op = "adddel" -> ~Has(T, "agents", op.k) /\ Has(T, "agents", op.k2) /\ op.k # op.k2
     [] op.op = "gendel" -> ~Has(T, "agents", op.k) /\ Has(T, "agents", op.k2) /\ op.k # op.k2
     [] op.op = "gen2"   -> ~Has(T, "agents", op.k) /\ ~Has(T, "pool", op.k2)
@@ -139,6 +140,13 @@ Struct(S, op) ==
          LET m == S.tree["pool"][op.k]
              S1 == PutS(S, "agents", op.k, m, <<"pool", op.k>>)
          IN DelS(S1, "pool", op.k)
+    \* one update moving a compartment away and generating a new one under the
+    \* same key (moves come before generations: both are carried out)
+    [] op.op = "movegen" ->
+         LET m == S.tree["agents"][op.k]
+             S1 == PutS(S, "pool", op.k, m, <<"agents", op.k>>)
+             S2 == DelS(S1, "agents", op.k)
+         IN PutS(S2, "agents", op.k, NewComp(op.tpl, op.x0), New)
     [] op.op = "adddel" ->
          DelS(PutS(S, "agents", op.k, NewComp("T0", op.x0), New), "agents", op.k2)
     [] op.op = "gendel" ->
@@ -256,6 +264,7 @@ Ops ==
   \cup {[op |-> "adddel", k |-> k, x0 |-> 5, k2 |-> j] : k \in Names, j \in Names}
   \cup {[op |-> "gendel", k |-> k, tpl |-> t, x0 |-> 0, k2 |-> j] : k \in Names, t \in Tpls, j \in Names}
   \cup {[op |-> "gen2", k |-> k, tpl |-> t, x0 |-> 0, k2 |-> j] : k \in Names, t \in Tpls, j \in Names}
+  \cup {[op |-> "movegen", k |-> k, tpl |-> t, x0 |-> 0] : k \in Names, t \in Tpls}
   \cup {[op |-> "addleaf", k |-> k, v |-> v] : k \in Names, v \in {0, 7}}
   \cup {[op |-> "delleaf", k |-> k] : k \in Names}
 
